@@ -303,8 +303,8 @@ Definition ex_sig (key : Z) (it : item isig) : isig := Some (key, sign_bytes it)
 (** two validators register, a logic call is queued, both sign, a third signature by validator 1's
     key is refused, a stale-key signature is refused *)
 Definition ex_ops_signed : list (op isig) :=
-  [ OpRegister 1 [{| ac_chain := 1; ac_addr := 11; ac_key := 101 |}];
-    OpRegister 2 [{| ac_chain := 1; ac_addr := 12; ac_key := 102 |}];
+  [ OpRegister 1 [{| ac_chain := 1; ac_addr := 11; ac_key := 101; ac_eth := 11 |}];
+    OpRegister 2 [{| ac_chain := 1; ac_addr := 12; ac_key := 102; ac_eth := 12 |}];
     OpPut 1 KSubmitLogicCall 7 55 true;
     OpSign 1 1 1 11 (ex_sig 101 (ex_item 1 KSubmitLogicCall 55 0 None));
     OpSign 2 1 1 12 (ex_sig 102 (ex_item 1 KSubmitLogicCall 55 0 None));
